@@ -1034,8 +1034,13 @@ pub fn scenario(st: &State, t: &mut Toks) -> PResult<String> {
         }
         // the peers that come, misbehave and go have all gone before the second half of the well-behaved clients opens (however busy
         // the machine is): "opened afterwards" means afterwards
+        let any_self_ending = !self_ending.is_empty();
         for h in self_ending {
             let _ = tokio::time::timeout(Duration::from_secs(60), h).await;
+        }
+        if any_self_ending {
+            // (... and the server has had time to notice that they are gone)
+            tokio::time::sleep(Duration::from_millis(400)).await;
         }
         tokio::time::sleep(Duration::from_millis(30 + (seed >> 16) % 30)).await;
         if slow_fault {
